@@ -13,6 +13,7 @@ import (
 	"os"
 	"runtime/debug"
 	"sort"
+	"strconv"
 	"sync/atomic"
 	"time"
 	"unsafe"
@@ -52,11 +53,13 @@ const (
 	kNote
 	kTryLock
 	kTryRLock
+	kNow
+	kSleep
 	nKinds
 )
 
 var kindNames = [...]string{"start", "exit", "yield", "stamp", "choose", "lock", "unlock", "rwcommit", "rwacquire", "rwunlock",
-	"rlock", "runlock", "poolget", "poolput", "onceenter", "oncedone", "wgadd", "wgwait", "condwait", "condsignal", "condbroadcast", "mapop", "note", "trylock", "tryrlock"}
+	"rlock", "runlock", "poolget", "poolput", "onceenter", "oncedone", "wgadd", "wgwait", "condwait", "condsignal", "condbroadcast", "mapop", "note", "trylock", "tryrlock", "now", "sleep"}
 
 func (k kind) String() string { return kindNames[k] }
 
@@ -95,7 +98,8 @@ type task struct {
 	panicked bool
 	lastAcq  uint64 // task-owned: seq of the last lock grant
 	prio     int
-	condGen  int // scheduler-owned: set when a cond wait has been signalled
+	condGen  int   // scheduler-owned: set when a cond wait has been signalled
+	wakeAt   int64 // scheduler-owned: simulated time at which a sleeping task may continue
 }
 
 // Pool behaviour for one simulation.
@@ -108,6 +112,22 @@ const (
 	PoolRandom                 // any pooled object
 )
 
+// ClockMode: how the simulated clock, the only clock the rewritten library can read, moves.
+type ClockMode int
+
+const (
+	ClockFine   ClockMode = iota // one microsecond per scheduler step, readings at full resolution
+	ClockCoarse                  // same pace, readings truncated to 16 ms ticks (consecutive readings are usually EQUAL)
+	ClockJumpy                   // at a reading the clock may leap forward by up to two hours; sleeps may overshoot
+	ClockFrozen                  // moves only when every live task sleeps (then to the earliest wake-up)
+)
+
+// clockEpoch: 2026-03-01 12:00:00 UTC. Every OS process starts its simulated clock here; the clock never reads the real one.
+const clockEpoch int64 = 1772366400 * 1e9
+
+// procClock is the process-wide simulated time in ns (monotone: a run starts where the previous one ended).
+var procClock = clockEpoch
+
 type Policy int
 
 const (
@@ -118,22 +138,24 @@ const (
 
 // Config of one simulation; everything in it comes from the run's plan.
 type Config struct {
-	Policy           Policy
-	SwitchPermille   int  // sticky: probability (per mille) of leaving the running task at a scheduling point
-	PCTDepth         int  // number of priority change points
-	PCTSteps         int  // horizon within which change points are drawn
-	StallTask        int  // -1: none
-	StallFrom        int  // step at which the stall begins
-	StallLen         int  // number of steps
-	PYields          bool // honour SimPoint()
-	PostYields       bool // an extra scheduling point right AFTER every release-type operation (Pool.Put, Unlock, RUnlock, WaitGroup.Done, Once done): another task can act on what was released before the releasing task executes its next statement
-	StepCap          int
-	Pool             PoolMode
-	GetFreshPermille int // F1
-	GetAnyPermille   int // F2
-	PutDropPermille  int // F3
-	FlushPermille    int // F4 (per pool operation)
-	Trace            bool
+	Policy            Policy
+	SwitchPermille    int  // sticky: probability (per mille) of leaving the running task at a scheduling point
+	PCTDepth          int  // number of priority change points
+	PCTSteps          int  // horizon within which change points are drawn
+	StallTask         int  // -1: none
+	StallFrom         int  // step at which the stall begins
+	StallLen          int  // number of steps
+	PYields           bool // honour SimPoint()
+	PostYields        bool // an extra scheduling point right AFTER every release-type operation (Pool.Put, Unlock, RUnlock, WaitGroup.Done, Once done): another task can act on what was released before the releasing task executes its next statement
+	StepCap           int
+	ClockLeapPermille int       // ClockJumpy: probability (per mille) that a reading leaps; 0 = 300
+	Clock             ClockMode // behaviour of the simulated clock (only code that reads a clock or sleeps can tell)
+	Pool              PoolMode
+	GetFreshPermille  int // F1
+	GetAnyPermille    int // F2
+	PutDropPermille   int // F3
+	FlushPermille     int // F4 (per pool operation)
+	Trace             bool
 }
 
 // Stats are counted by the scheduler during one run.
@@ -154,6 +176,12 @@ type Stats struct {
 	StallHolding  int // stall began while the victim held a lock
 	Preempt       int // a switch away from a task that was still enabled
 	PYieldSwitch  int // a switch at a SimPoint
+	ClockReads    int
+	ClockTies     int // a reading equal to the previous reading
+	ClockJumps    int
+	Sleeps        int
+	SimNanos      int64 // simulated time that passed during the run
+	SleepSkips    int   // the clock was moved to the earliest wake-up because every live task slept
 	Notes         map[string]int
 }
 
@@ -221,6 +249,9 @@ type Sim struct {
 	last    *task
 	pctAt   []int
 	running bool
+	now     int64 // simulated time, ns
+	lastRd  int64
+	start   int64
 }
 
 var (
@@ -262,6 +293,8 @@ func New(ch Chooser, cfg Config) *Sim {
 		locks: map[unsafe.Pointer]*lockState{}, pools: map[unsafe.Pointer]*poolState{},
 		onces: map[unsafe.Pointer]*onceState{}, wgs: map[unsafe.Pointer]*wgState{}, conds: map[unsafe.Pointer]*condState{}}
 	s.res.Notes = map[string]int{}
+	s.now = procClockLoad()
+	s.start = s.now
 	s.res.LogHash = 1469598103934665603
 	s.res.SwitchHash = 1469598103934665603
 	return s
@@ -382,6 +415,8 @@ func (s *Sim) enabled(t *task) bool {
 		return w == nil || w.n == 0
 	case kCondWait:
 		return t.condGen > 0
+	case kSleep:
+		return s.now >= t.wakeAt
 	}
 	return true
 }
@@ -403,6 +438,23 @@ func (s *Sim) apply(t *task) resp {
 	case kStart, kYield, kStamp, kMapOp:
 	case kNote:
 		s.res.Notes[r.label]++
+	case kNow:
+		if s.cfg.Clock == ClockJumpy && coin(s.ch, s.leapPermille(), "clockjump") {
+			s.now += int64(1+s.ch.Intn(7200, "clockleap")) * 1e9
+			s.res.ClockJumps++
+		}
+		rd := s.now
+		if s.cfg.Clock == ClockCoarse {
+			rd -= rd % 16e6
+		}
+		s.res.ClockReads++
+		if rd == s.lastRd {
+			s.res.ClockTies++
+		}
+		s.lastRd = rd
+		out.n = int(rd)
+	case kSleep:
+		// the wake-up time was fixed when the request arrived; nothing to do at the grant
 	case kChoose:
 		out.n = s.ch.Intn(r.n, r.label)
 		obj = out.n
@@ -707,6 +759,18 @@ func (s *Sim) Run() *Result {
 			}
 		}
 		if len(en) == 0 {
+			// everybody who is alive waits; if somebody merely sleeps, time passes until the earliest wake-up
+			var wake int64 = -1
+			for _, t := range s.tasks {
+				if !t.done && t.hasReq && t.pending.k == kSleep && (wake < 0 || t.wakeAt < wake) {
+					wake = t.wakeAt
+				}
+			}
+			if wake >= 0 {
+				s.now = wake
+				s.res.SleepSkips++
+				continue
+			}
 			s.res.Deadlock = true
 			s.res.DeadlockMsg = s.describeBlocked()
 			s.abortAll(&live)
@@ -758,6 +822,9 @@ func (s *Sim) Run() *Result {
 		out := s.apply(t)
 		t.hasReq = false
 		s.res.Steps++
+		if s.cfg.Clock != ClockFrozen {
+			s.now += 1000
+		}
 		if s.cfg.Policy == PolicyPCT {
 			for i, at := range s.pctAt {
 				if at == s.res.Steps {
@@ -784,8 +851,21 @@ func (s *Sim) Run() *Result {
 		if r.k == kCondWait {
 			s.registerCondWait(t, r.p)
 		}
+		if r.k == kSleep {
+			d := int64(r.n)
+			if d < 0 {
+				d = 0
+			}
+			if s.cfg.Clock == ClockJumpy && coin(s.ch, 200, "oversleep") {
+				d += d/2 + int64(s.ch.Intn(1000, "oversleepms"))*1e6
+			}
+			t.wakeAt = s.now + d
+			s.res.Sleeps++
+		}
 		t.pending, t.hasReq = r, true
 	}
+	s.res.SimNanos = s.now - s.start
+	procClockStore(s.now)
 	for _, t := range s.tasks {
 		if t.panicked {
 			s.res.Panics = append(s.res.Panics, fmt.Sprintf("%s: %s", t.name, t.panicVal))
@@ -855,4 +935,35 @@ func StartWatchdog(d time.Duration, running func() bool) {
 			last = cur
 		}
 	}()
+}
+
+//go:norace
+func procClockLoad() int64 { return procClock }
+
+//go:norace
+func procClockStore(v int64) {
+	if v > procClock {
+		procClock = v
+	}
+}
+
+//go:norace
+func procClockTick() int64 {
+	procClock += 1000
+	return procClock
+}
+
+func (s *Sim) leapPermille() int {
+	if s.cfg.ClockLeapPermille > 0 {
+		return s.cfg.ClockLeapPermille
+	}
+	return 300
+}
+
+func init() {
+	if v := os.Getenv("VERIF_CLOCK_UNIX"); v != "" {
+		if n, err := strconv.ParseInt(v, 10, 64); err == nil && n > 0 {
+			procClock = n * 1e9
+		}
+	}
 }
